@@ -243,3 +243,25 @@ def t_translate(tag, dur):
         raise Wrapped(tag) from exc
     log('task_end', tag=tag)
     return ('v', tag)
+
+
+class SlowPickle:
+    """a result that takes `nap` seconds to serialise (the worker is then in
+    the middle of sending its result); naps in short slices so that a signal
+    is acted upon at once"""
+
+    def __init__(self, tag, nap):
+        self.tag, self.nap = tag, nap
+
+    def __reduce__(self):
+        log('result_pickling', tag=self.tag)
+        t_end = time.monotonic() + self.nap
+        while time.monotonic() < t_end:
+            time.sleep(0.05)
+        return (tuple, (('v', self.tag),))
+
+
+def t_slow_result(tag, nap):
+    log('task_start', tag=tag)
+    log('task_end', tag=tag)
+    return SlowPickle(tag, nap)
